@@ -271,3 +271,44 @@ fn c09_export_unknown_attr() {
     kani::cover!(!transitive);
     core::mem::forget((out, attrs, keep));
 }
+
+//@ id=C09 tier=thorough cap=1200
+//@ fn: bgp::Attribute::as_path_strip_confed, bgp::Attribute::as_path_prepend_confed, bgp::Attribute::as_path_length
+//@ bound: AS_PATH skeleton [2 ASNs][1 ASN] with symbolic segment types (so every mix of SET/SEQ/CONFED_SEQ/CONFED_SET) and ASNs; unwind 12
+//@ desc: strip_confed removes exactly the confederation segments and keeps the others byte for byte in order (hop count unchanged); prepend_confed puts the member AS once at the head of a leading AS_CONFED_SEQUENCE and never changes the hop count
+#[kani::proof]
+#[kani::unwind(12)]
+fn c09_confed_edits() {
+    let (a, types, asns) = as_path_skel(2, true);
+    let hops = a.as_path_length();
+    let s = a.as_path_strip_confed();
+    let sb = s.binary().unwrap();
+    let keep0 = types[0] == 1 || types[0] == 2;
+    let keep1 = types[1] == 1 || types[1] == 2;
+    let want_len = (if keep0 { 10 } else { 0 }) + (if keep1 { 6 } else { 0 });
+    assert!(sb.len() == want_len);
+    assert!(s.as_path_length() == hops);
+    if keep0 {
+        assert!(sb[0] == types[0] && sb[1] == 2);
+        assert!(u32::from_be_bytes([sb[2], sb[3], sb[4], sb[5]]) == asns[0]);
+        assert!(u32::from_be_bytes([sb[6], sb[7], sb[8], sb[9]]) == asns[1]);
+    }
+    if keep1 {
+        let o = if keep0 { 10 } else { 0 };
+        assert!(sb[o] == types[1] && sb[o + 1] == 1);
+        assert!(u32::from_be_bytes([sb[o + 2], sb[o + 3], sb[o + 4], sb[o + 5]]) == asns[2]);
+    }
+    let member: u32 = kani::any();
+    let p = a.as_path_prepend_confed(member);
+    let pb = p.binary().unwrap();
+    assert!(pb[0] == bgp::Attribute::AS_PATH_TYPE_CONFED_SEQ);
+    assert!(u32::from_be_bytes([pb[2], pb[3], pb[4], pb[5]]) == member);
+    assert!(p.as_path_length() == hops);
+    let merged = types[0] == bgp::Attribute::AS_PATH_TYPE_CONFED_SEQ;
+    assert!(pb.len() == 16 + if merged { 4 } else { 6 });
+    assert!(pb[1] == if merged { 3 } else { 1 });
+    kani::cover!(keep0 && !keep1);
+    kani::cover!(!keep0 && !keep1);
+    kani::cover!(merged);
+    core::mem::forget((a, s, p));
+}
